@@ -120,10 +120,32 @@ Expected(TT, items) ==
      IF items[e].k = "S" THEN LET ix == Idxs(TT, e, 0, "sv") IN [k |-> "S", rels |-> <<>>, from |-> ix[1], to |-> ix[Len(ix)]]
      ELSE [k |-> "E", rels |-> [r \in 1..Len(items[e].vs) |-> ExpRel(TT, e, r)], from |-> 0, to |-> 0]]
 
+\* ---- the CANONICAL form of one relation (C13), as a token list read off the same tags: <<kind, src>> where src is
+\* the index of the source token whose text is copied (0: the token's fixed text; blanks are single spaces).
+\*   name[:archqual] (op version) [archs] <profiles> <profiles>
+CT(k, src) == <<k, src>>
+CSP == CT("WHITESPACE", 0)
+RECURSIVE CTerms(_,_)
+\* ts: sequence of <<neg, idx>>
+CTerms(ts, i) == IF i > Len(ts) THEN <<>>
+                 ELSE (IF i > 1 THEN <<CSP>> ELSE <<>>) \o (IF ts[i][1] THEN <<CT("NOT", 0)>> ELSE <<>>) \o <<CT("IDENT", ts[i][2])>> \o CTerms(ts, i + 1)
+RECURSIVE CGroups(_,_)
+CGroups(gs, g) == IF g > Len(gs) THEN <<>>
+                  ELSE <<CSP, CT("L_ANGLE", 0)>> \o CTerms(gs[g], 1) \o <<CT("R_ANGLE", 0)>> \o CGroups(gs, g + 1)
+CanonRel(x) ==
+  <<CT("IDENT", x.name)>>
+  \o (IF x.aq = 0 THEN <<>> ELSE <<CT("COLON", 0), CT("IDENT", x.aq)>>)
+  \o (IF x.op = <<>> THEN <<>>
+      ELSE <<CSP, CT("L_PARENS", 0)>> \o [i \in 1..Len(x.op) |-> CT("COPY", x.op[i])] \o <<CSP>>
+           \o [i \in 1..Len(x.ver) |-> CT("COPY", x.ver[i])] \o <<CT("R_PARENS", 0)>>)
+  \o (IF ~x.hasArch THEN <<>> ELSE <<CSP, CT("L_BRACKET", 0)>> \o CTerms(x.archs, 1) \o <<CT("R_BRACKET", 0)>>)
+  \o CGroups(x.profs, 1)
+CanonOf(exp) == [n \in 1..Len(exp) |-> IF exp[n].k = "S" THEN <<>> ELSE [r \in 1..Len(exp[n].rels) |-> CanonRel(exp[n].rels[r])]]
+
 RECURSIVE Positions(_,_,_)
 Positions(TT, i, p) == IF i > Len(TT) THEN <<>> ELSE << <<TT[i].k, p, 1>> >> \o Positions(TT, i + 1, p + 1)
 MkCase(TT, items, allow) ==
-  [toks |-> Positions(TT, 1, 1), allow |-> allow, exp |-> Expected(TT, items),
+  [toks |-> Positions(TT, 1, 1), allow |-> allow, exp |-> Expected(TT, items), canon |-> CanonOf(Expected(TT, items)),
    roles |-> [i \in 1..Len(TT) |-> <<TT[i].role, TT[i].e, TT[i].r, TT[i].g>>],
    hasSv |-> \E e \in 1..Len(items) : items[e].k = "S"]
 
@@ -178,6 +200,6 @@ MCInit ==
 FieldAccepted == Done => nerr = 0 /\ Structure = case.exp
 
 Emit == Done => PrintT(<<"REPLAY", ToJson([
-           t |-> [k \in 1..Len(toks) |-> toks[k][1]], a |-> case.allow, x |-> case.exp, r |-> case.roles,
+           t |-> [k \in 1..Len(toks) |-> toks[k][1]], a |-> case.allow, x |-> case.exp, cn |-> case.canon, r |-> case.roles,
            sv |-> case.hasSv, e |-> nerr, o |-> out ])>>)
 =============================================================================
